@@ -1,6 +1,7 @@
 """1-D Bardell basis tables through ctypes (calc_vec_f/fxi/fxixi of the C library
 compiled from the working tree; their values are judged exactly by C10)."""
 import ctypes
+import os
 
 import numpy as np
 
@@ -13,7 +14,7 @@ _lib = None
 def lib():
     global _lib
     if _lib is None:
-        L = ctypes.CDLL(build.build_ctypes_lib())
+        L = ctypes.CDLL(os.environ.get('VERIF_SAN_LIB') or build.build_ctypes_lib())
         for nm in ('calc_vec_f', 'calc_vec_fxi', 'calc_vec_fxixi'):
             fn = getattr(L, nm)
             fn.restype = None
